@@ -237,6 +237,10 @@ def await_hook(ex, v, frame, node):
             c.effect()
         return None
     if isinstance(v, tuple) and len(v) == 2 and v[0] == "wait_for":
+        if ex.opt.get("stopped_at_the_first_wait"):
+            # the group's owner clears the flag while the loop waits (what
+            # ProcessSyncGroup.wait_for_process does on cancellation)
+            ex.inputs["self"].fields["running"] = False
         if ex.opt.get("track_frames"):
             # C30's bounded variant: the group is stopped after three cycles
             ex.ghost["cycles"] = ex.ghost.get("cycles", 0) + 1
@@ -362,6 +366,26 @@ def run_frames_contract():
     return c
 
 
+def run_stop_contract():
+    """a group stopped through its flag `running` (the stop path of process
+    based groups): however the bus behaves from then on - responses, or every
+    frame timing out - the cycle loop ends within two more iterations and the
+    terminals are asked back.  The loop is unrolled; a feasible path into a
+    third iteration after the flag was cleared refutes the clause."""
+    p = group_params(SyncGroup, 1)
+    p["self"].fields["running"] = T.Const(True)
+    return Contract(
+        SyncGroupBase.run, name="SyncGroupBase.run<stopped by its flag>",
+        params=p, setup=group_setup(1),
+        loops={},
+        ensures={"asked_back_and_fmmus_freed": "released(self)"},
+        raises=[Raises(EtherCatError, when=None)],
+        modifies=None,
+        options={"stopped_at_the_first_wait": True, "unroll_limit": 3, "unroll_is_obligation": True,
+                 "cancellation": False, "await": await_hook,
+                 "inline": {"ebpfcat.ebpfcat:SyncGroupBase.map_fmmu"}})
+
+
 def run_contract(cls, n):
     return Contract(
         SyncGroupBase.run,
@@ -399,8 +423,10 @@ class Sterile(Contract_):
 
 
 class LookupElem(Contract_):
-    """bpf.lookup_elem on the program table: found / not found (errno 2) /
-    another error"""
+    """bpf.lookup_elem on the program table: found / not found / another
+    error.  As bpf._lookup_elem is written (its source is under contract in
+    C10): the kernel's ENOENT reaches the caller as KeyError, every other
+    errno as the OSError itself."""
     inline = False
     loops = {}
 
@@ -408,8 +434,10 @@ class LookupElem(Contract_):
         k = ex.choose(3, "program table slot: free / taken / bpf error")
         if k == 1:
             return fresh(ex, T.Range(0, 2**32 - 1), "prog_fd")
+        if k == 0:
+            raise PyRaise(ex.make_exc(KeyError))
         e = ex.make_exc(OSError)
-        e.fields["errno"] = 2 if k == 0 else 13
+        e.fields["errno"] = 13
         raise PyRaise(e)
 
 
